@@ -8,6 +8,7 @@ import (
 	"fmt"
 	"os"
 	"path/filepath"
+	"reflect"
 	"sort"
 	"strconv"
 	"strings"
@@ -68,7 +69,16 @@ func (s *pset) digest(salt, pw []byte) []byte {
 
 func (s *pset) hasher() store.Hasher {
 	if s.argon {
-		h, err := store.NewArgon2IDHasher(&store.Argon2IDParams{Time: s.time, Memory: s.memory, Threads: s.threads, Length: s.length})
+		// (fields are set by name through reflection: the harness keeps building when a numeric field of the
+		// parameter struct changes its width)
+		ap := &store.Argon2IDParams{}
+		pv := reflect.ValueOf(ap).Elem()
+		for name, x := range map[string]uint64{"Time": uint64(s.time), "Memory": uint64(s.memory), "Threads": uint64(s.threads), "Length": uint64(s.length)} {
+			if f := pv.FieldByName(name); f.IsValid() && f.CanSet() && f.CanUint() {
+				f.SetUint(x)
+			}
+		}
+		h, err := store.NewArgon2IDHasher(ap)
 		if err != nil {
 			panic(err)
 		}
